@@ -67,8 +67,8 @@ use std::path::PathBuf;
 /// Configure a `WalkBuilder` based on the unrestricted level in `PlanOptions`.
 ///
 /// This matches ripgrep's behavior with renamify-specific adjustments:
-/// - Level 0 (default): Respect .gitignore, .ignore, .rnignore; include hidden files; exclude .git
-/// - Level 1 (-u): Don't respect .gitignore, but respect .ignore and .rnignore; include hidden; exclude .git
+/// - Level 0 (default): Respect .gitignore, .ignore, .rgignore, .rnignore; include hidden files; exclude .git
+/// - Level 1 (-u): Don't respect .gitignore, but respect .ignore, .rgignore and .rnignore; include hidden; exclude .git
 /// - Level 2 (-uu): Don't respect any ignore files; include hidden files; exclude .git
 /// - Level 3 (-uuu): Same as level 2, plus treat binary files as text (handled by caller)
 pub fn configure_walker(roots: &[PathBuf], options: &scanner::PlanOptions) -> WalkBuilder {
@@ -101,6 +101,7 @@ pub fn configure_walker(roots: &[PathBuf], options: &scanner::PlanOptions) -> Wa
                 .parents(true)
                 .hidden(false)      // false = include hidden files like .goreleaser.yaml, .github/, etc.
                 .add_custom_ignore_filename(".gitignore")  // Treat .gitignore as custom ignore file for non-git directories
+                .add_custom_ignore_filename(".rgignore")  // ripgrep's ignore file (documented as honoured)
                 .add_custom_ignore_filename(".rnignore")  // Renamify-specific ignore file
                 .filter_entry(|e| {
                     // Exclude .git directories from being scanned
@@ -116,6 +117,7 @@ pub fn configure_walker(roots: &[PathBuf], options: &scanner::PlanOptions) -> Wa
                 .ignore(true)       // Still respect .ignore files
                 .parents(true)      // Still check parent dirs
                 .hidden(false)      // false = include hidden files
+                .add_custom_ignore_filename(".rgignore")  // ripgrep's ignore file (documented as honoured with -u)
                 .add_custom_ignore_filename(".rnignore")  // Renamify-specific ignore file
                 .filter_entry(|e| {
                     // Exclude .git directories from being scanned
